@@ -58,6 +58,7 @@ class Result:
 
 PYL_OPS = {"cksum", "isvalid", "inputmode", "protocol", "getbits", "parse", "readp", "cfgset", "cfgdel", "cfgpoll", "construct", "cfgkey"}
 PYL_MAX = 25000
+STR_MAX = 3000
 PYL_MAX_READP = 4000      # whole reader runs: `__next__` → `read` → `_parse_*` / `_do_error` interpreted per pass
 
 
@@ -82,6 +83,20 @@ def do_corr(res, lines):
             # function not translatable) says nothing about the code: it is counted, not reported as a difference —
             # the hand model answers the same operation below
             if b in ("unsupported", "bad-value", "err ?", "err NameError") or "pyl-" in b or "<unsupported>" in b:
+                res.coverage["pylite_not_interpretable"] = res.coverage.get("pylite_not_interpretable", 0) + 1
+                continue
+            res.diffs.append(dict(op=l, py=a, model=b))
+    # `str(m)` of the message a `parse` / `construct` line denotes: CPython, the model's `strExc`, and the translated
+    # `__str__` interpreted (`pyl-str …`)
+    strl = [l for l in lines if l.split(" ", 1)[0] in ("parse", "construct") and len(l) < 20000]
+    if len(strl) > STR_MAX:
+        strl = random.Random(len(strl)).sample(strl, STR_MAX)
+    if strl:
+        n3, diffs3, _ = corr.compare(["str " + l for l in strl] + ["pyl-str " + l for l in strl])
+        res.count(n3)
+        res.coverage["str_ops_three_way"] = res.coverage.get("str_ops_three_way", 0) + n3
+        for l, a, b in diffs3:
+            if b in ("unsupported", "bad-value") or "pyl-" in b:
                 res.coverage["pylite_not_interpretable"] = res.coverage.get("pylite_not_interpretable", 0) + 1
                 continue
             res.diffs.append(dict(op=l, py=a, model=b))
